@@ -142,10 +142,15 @@ func (te *TypeEnv) sIdx(off, i Term) Term {
 			return tAdd(off, i)
 		}
 	}
+	if strings.HasPrefix(off.S, "(sidx ") {
+		// element j of s[a:] is element a+j of s: flatten so that facts stated about s[k] match (done on the term,
+		// not by an axiom: a quantified re-association rule feeds the solver's instantiation loop)
+		if parts := splitSexp(off.S[1 : len(off.S)-1]); len(parts) == 3 {
+			return te.sIdx(Term{parts[1], SInt}, tAdd(Term{parts[2], SInt}, i))
+		}
+	}
 	te.pre.Add("fn:sidx", "(declare-fun sidx (Int Int) Int)")
 	te.pre.Add("ax:sidx", "(assert (forall ((o Int) (i Int)) (! (= (sidx o i) (+ o i)) :pattern ((sidx o i)))))")
-	// element j of s[i:] is element i+j of s: re-associate so that facts stated about s[k] match
-	te.pre.Add("ax:sidx#assoc", "(assert (forall ((o Int) (i Int) (j Int)) (! (= (sidx (sidx o i) j) (sidx o (+ i j))) :pattern ((sidx (sidx o i) j)))))")
 	return Term{app("sidx", off.S, i.S), SInt}
 }
 func sLen(s Term) Term { return fieldOf(s, "mkSlice", 2, "slen", SInt) }
